@@ -140,6 +140,12 @@ package auth
 //@   before[given-seq]   call setCollectionChannelInvalSeq#1 $3 == invalSeq
 //@   before[valid-only]  call setCollectionChannelInvalSeq#1 callres(CollectionChannels, 1, 0) != nil
 //@   before[roles-seq]   call SetRoleInvalSeq#1 $1 == invalSeq && callres(RoleNames, 1, 0) != nil
+// (C18) at the end of a resync every stored, decodable user has its computed roles looked at whatever the channel state was;
+// valid computed roles are invalidated and the update is not cancelled; it is cancelled only when nothing needed invalidation
+//@   also C18: roles-consulted, roles-invalidated, cancel-only-if-nothing
+//@   ensures[roles-consulted]        current != nil && called(JSONUnmarshal, 1) && isNilErr(callres(JSONUnmarshal, 1, 0)) ==> called(RoleNames, 1)
+//@   ensures[roles-invalidated]      called(RoleNames, 1) && callres(RoleNames, 1, 0) != nil ==> called(SetRoleInvalSeq, 1) && called(JSONMarshal, 1) && err == callres(JSONMarshal, 1, 1)
+//@   ensures[cancel-only-if-nothing] current != nil && called(JSONUnmarshal, 1) && isNilErr(callres(JSONUnmarshal, 1, 0)) && !called(JSONMarshal, 1) ==> err == box(base.ErrUpdateCancel) && called(RoleNames, 1) && callres(RoleNames, 1, 0) == nil
 //@   modifies *
 //@   only-contracts none
 //@   propagates JSONUnmarshal#1 JSONMarshal#1
@@ -150,6 +156,32 @@ package auth
 //@   only-contracts none
 //@   propagates casUpdatePrincipal#1
 // (Authenticator.rehashPassword is a trusted contract of C12 in zz_verif_c12.go: it has the same single call.)
+
+// ---- registration of new users (session POST with createUserIfNeeded, OIDC / JWT auto-registration) ----
+// RegisterNewUser: a failure to generate the password or to build the user surfaces. A Save error that is not a CAS
+// mismatch reaches the caller ([save-error]): in particular the failure of Save's second storage write (the e-mail
+// lookup document, after the user document was written) is never turned into a success. The concurrently registered
+// user is looked up only after a CAS mismatch ([lookup-only-on-cas-mismatch]), a failed lookup surfaces, and a user is
+// returned without error only if it is the one this call saved or the one found after a CAS mismatch ([returned-user]).
+// best-effort: SetEmail#1 - auth.go:971-973 "Skipping SetEmail for user %q - Invalid email address provided": the user
+// is registered without the e-mail address (documented behaviour).
+//@ func Authenticator.RegisterNewUser
+//@   modifies *
+//@   only-contracts IsCasMismatch
+//@   best-effort SetEmail#1
+//@   propagates GenerateRandomSecret#1 NewUserNoChannels#1 GetUser#1
+//@   ensures[save-error]    called(Save, 1) && !isNilErr(callres(Save, 1, 0)) && !isCasMismatchErr(callres(Save, 1, 0)) ==> !isNilErr(result1)
+//@   ensures[lookup-only-on-cas-mismatch] called(GetUser, 1) ==> called(Save, 1) && isCasMismatchErr(callres(Save, 1, 0))   // an ensures, not a `before call`: a call-site assertion is assumed after it is checked and would mask [save-error]
+//@   ensures[saved]         isNilErr(result1) ==> called(Save, 1) && (isNilErr(callres(Save, 1, 0)) || isCasMismatchErr(callres(Save, 1, 0)))
+//@   ensures[returned-user] isNilErr(result1) ==> (isNilErr(callres(Save, 1, 0)) && result0 == callres(NewUserNoChannels, 1, 0)) || (isCasMismatchErr(callres(Save, 1, 0)) && called(GetUser, 1) && result0 == callres(GetUser, 1, 0) && result0 != nil)
+//@   ensures[no-user-on-error] !isNilErr(result1) ==> result0 == nil
+
+// JWT / OIDC authentication with auto-registration: the lookup of the user and the registration surface.
+//@ func Authenticator.authenticateJWTIdentity
+//@   modifies *
+//@   only-contracts New, Errorf
+//@   propagates GetUser#1 RegisterNewUser#1
+//@   ensures[registered-user] called(RegisterNewUser, 1) && isNilErr(err) ==> user == callres(RegisterNewUser, 1, 0)
 
 // ---- sessions ----
 // CreateSession, DeleteSession, deleteOneTimeSession: contracts of C12 in zz_verif_c12.go ([stored], [deleted], [consumed]
